@@ -90,6 +90,33 @@ pub fn run(a: &Args) {
             }
         }
     }
+    // two separately merged groups around every word boundary: [a0,b0) and [c0,d0) ignored, every position queried
+    for &nwords in &[2usize, 3, 4] {
+        let cap = 64 * nwords;
+        for k in 1..nwords {
+            let w = 64 * k;
+            for a0 in [w - 5, w - 2, w - 1] { for b0 in [w - 1, w] { for c0 in [w, w + 1, w + 2] { for d0 in [w + 31, w + 62, w + 63, w + 64, w + 65, w + 70] {
+                if !(a0 < b0 && b0 <= c0 && c0 < d0 && d0 < cap - 1) { continue }
+                let mut plan: Vec<(u8, usize)> = vec![];
+                // right group first or left group first
+                let order = (a0 + b0 + c0 + d0) % 2 == 0;
+                let left: Vec<usize> = (a0..b0).collect(); let right: Vec<usize> = (c0..d0).collect();
+                let (first, second) = if order { (&left, &right) } else { (&right, &left) };
+                for &q in first.iter() { plan.push((0, q)) }
+                for i in a0.saturating_sub(2)..(d0 + 3).min(cap) { plan.push((1, i)); plan.push((2, i)) }
+                for &q in second.iter() { plan.push((0, q)) }
+                for i in a0.saturating_sub(2)..(d0 + 3).min(cap) { plan.push((1, i)); plan.push((2, i)) }
+                let ops = run_history(nwords, &plan);
+                let (o, onote) = oracle(cap, &ops);
+                let g_ops: Vec<String> = ops.iter().map(|o| match o {
+                    Op::Ign(j) => format!("TIgn {j}"),
+                    Op::Prev(i, r) => format!("TPrev {i} {}", match r { Some(v) => format!("(Some {v})"), None => "None".into() }),
+                    Op::Next(i, r) => format!("TNext {i} {}", match r { Some(v) => format!("(Some {v})"), None => "None".into() }) }).collect();
+                cases.push(C { g: format!("TCase {nwords} [{}]", g_ops.join("; ")), note: format!("tracker words={nwords} groups [{a0},{b0}) [{c0},{d0})"),
+                    family: "two-groups-at-a-word-boundary", ok: Some(o), onote, size: ops.len() });
+            } } } }
+        }
+    }
     std::fs::create_dir_all(&a.out).unwrap();
     let shard = a.shard.max(1);
     let n_shards = (cases.len() + shard - 1) / shard;
